@@ -265,11 +265,11 @@ class Controller:
         return self.wait(lambda: ch.acks >= ch.sent or ch.state == "gone", timeout)
 
     def release(self, ch, code=0, lines=None):
-        """Let the child run its scripted lines and exit with `code`."""
+        """Let the child run its scripted lines and exit with `code` (code < 0: die by signal -code)."""
         ch.state = "released"
         ch.exit_code_sent = code
         ch.release_seq = self.log("release", child=ch.id, code=code)
-        self.send(ch, list(lines or []) + ["exit %d" % code])
+        self.send(ch, list(lines or []) + (["exit %d" % code] if code >= 0 else ["kill %d" % -code]))
 
     # ------------------------------------------------------------------ points
     def held(self, prefix=None):
